@@ -206,6 +206,9 @@ func init() {
 				k := x.Choose(len(c14kinds), "planted")
 				a := x.Choose(len(c14accmodes), "access")
 				e := x.Choose(len(c14extras), "extra-flags")
+				// how the request spells the name: absolute, or relative to the init's working directory (/w)
+				c14relative = x.Bool("relative-name")
+				defer func() { c14relative = false }()
 				if x.Dry() {
 					return
 				}
@@ -269,6 +272,9 @@ func c14env(x *mc.X) (container.Environment, string, bool) {
 // classes already seen to block the call in this worker: every further batch containing one would cost a whole horizon
 var c14blocking = map[string]string{} // group → the batch first seen to block (that batch itself is still re-run)
 
+// the next Open names its files relative to the init's working directory
+var c14relative bool
+
 // descriptor number of the host process that is free while the next Open runs (-1: none)
 var c14freeFd = -1
 
@@ -293,9 +299,14 @@ func c14open(x *mc.X, batch []int) {
 		if cl.plant != nil {
 			cl.plant(root+p, p)
 		}
-		cmds = append(cmds, container.OpenCmd{Path: p, Flag: cl.flag, Perm: 0644, MkdirAll: cl.mkdir})
+		rp := p
+		if c14relative {
+			rp = strings.TrimPrefix(p, "/w/")
+		}
+		cmds = append(cmds, container.OpenCmd{Path: rp, Flag: cl.flag, Perm: 0644, MkdirAll: cl.mkdir})
 	}
 	x.Note("open-batch", names)
+	x.Note("relative-names", c14relative)
 	var res []container.OpenCmdResult
 	var err error
 	if c14freeFd >= 0 {
@@ -352,6 +363,9 @@ func c14open(x *mc.X, batch []int) {
 		cl := c14all[ci]
 		r := res[k]
 		p := cmds[k].Path
+		if c14relative {
+			p = "/w/" + p
+		}
 		if cl.fails != c14all[batch[0]].fails || cl.plant != nil {
 			mixed = true
 		}
@@ -400,7 +414,7 @@ func c14open(x *mc.X, batch []int) {
 		c14pool.drop()
 	}
 	if mixed || c14freeFd >= 0 {
-		x.Distinct(fmt.Sprint(names, outcome, c14freeFd))
+		x.Distinct(fmt.Sprint(names, outcome, c14freeFd, c14relative))
 	}
 	x.Outcome("open:" + outcome)
 }
